@@ -11,6 +11,7 @@ pub fn run(id: &str) -> Result<String, String> {
         "F6" => f6(),
         "F12" => f12(),
         "F17" => f17(),
+        "F24" => f24(),
         _ => Err(format!("unknown witness {id}")),
     }
 }
@@ -165,5 +166,31 @@ fn f17() -> Result<String, String> {
     if !raw.starts_with(b"BCF") { return Err(format!("(Bcf, no compression) output starts with {:02x?}, expected the raw BCF magic", &raw[..raw.len().min(4)])); }
     if !is_gz(&gz) { return Err(format!("(Bcf, Bgzf) output starts with {:02x?}, expected a gzip member", &gz[..gz.len().min(4)])); }
     if !is_gz(&dflt) { return Err(format!("(Bcf, default compression) output starts with {:02x?}, expected a gzip member", &dflt[..dflt.len().min(4)])); }
+    Ok("\"cases\":3".into())
+}
+
+/// F24: bcf lazy record reader: Reader::read_record indexes the site buffer (record/fields.rs `index`) with lengths and
+/// counts taken from the file: a string length past the buffer, or n_allele = 0, must be an error, not a panic.
+fn f24() -> Result<String, String> {
+    let fixed = |n_allele: u16| -> Vec<u8> {
+        let mut v = vec![0u8; 24];
+        v[8] = 1; // rlen = 1
+        v[12..16].copy_from_slice(&[0x01, 0x00, 0x80, 0x7f]); // qual = missing
+        v[18..20].copy_from_slice(&n_allele.to_le_bytes());
+        v
+    };
+    let rec = |site: Vec<u8>| -> Vec<u8> { let mut d = (site.len() as u32).to_le_bytes().to_vec(); d.extend(0u32.to_le_bytes()); d.extend(site); d };
+    let mut cases: Vec<(&str, Vec<u8>)> = Vec::new();
+    let mut a = fixed(1); a.push(0x77); cases.push(("ID string of declared length 7 with no bytes left", rec(a)));
+    let mut b = fixed(0); b.extend([0x07, 0x17, b'N', 0x00]); cases.push(("n_allele = 0", rec(b)));
+    let mut c = fixed(1); c.extend([0x07, 0x17, b'N', 0x71]); cases.push(("FILTER vector of declared length 7 with no bytes left", rec(c)));
+    for (what, data) in cases {
+        let r = std::panic::catch_unwind(move || {
+            let mut reader = noodles_bcf::io::Reader::from(&data[..]);
+            let mut record = noodles_bcf::Record::default();
+            reader.read_record(&mut record).map(|_| ())
+        });
+        if r.is_err() { return Err(format!("bcf Reader::read_record PANICS on a record with {what}")); }
+    }
     Ok("\"cases\":3".into())
 }
